@@ -154,8 +154,12 @@ class Ctx:
                   coverage=cov, assumptions=self.assumptions, wall_s=round(wall, 2),
                   violations=len(self.violations),
                   known_findings=[k["key"] for k in self.known_hits])
-        os.makedirs(os.path.join(VERIF, "evidence"), exist_ok=True)
-        with open(os.path.join(VERIF, "evidence", self.pid + ".json"), "w") as f:
+        # evidence/ describes runs against /repo itself only; a run against a scratch copy (VERIF_REPO, used for
+        # seeded changes and candidate repairs) is recorded under .run/ and never replaces a property's evidence.
+        alt = os.path.abspath(os.environ.get("VERIF_REPO") or "/repo") != "/repo"
+        edir = os.path.join(VERIF, ".run", "evidence-scratch") if alt else os.path.join(VERIF, "evidence")
+        os.makedirs(edir, exist_ok=True)
+        with open(os.path.join(edir, self.pid + ".json"), "w") as f:
             json.dump(ev, f, indent=1)
         print("%s %s: %s  states=%d transitions=%d impl-traces=%d evaluations=%d wall=%.1fs" % (
             self.pid, self.tier, "OK" if rc == 0 else "VIOLATED", self.states, self.transitions,
